@@ -274,6 +274,31 @@ __CPROVER_ensures(this_->base_suspend_point._count_flag == gh_cf2 && src->_count
 __CPROVER_ensures(gh_G < (gh_cf2 >> 1) ==> H((SP *)this_, gh_G) == gh_oldH2)
 ;
 #endif
+/* typed suspend point with a move-sensitive value (c06_mv: a move empties and flags its source): reading the attached value never consumes it - the value
+ * handed out equals the producer's, and the stored one is still that value, un-moved, afterwards (a second read, await_resume() or a moved point sees it) */
+#ifdef CV_HAS_spm_get
+void spm_get(MVT *ret, SPM *this_)
+__CPROVER_requires(cv_exc_pending == 0 && __CPROVER_is_fresh(this_, sizeof(*this_)) && __CPROVER_is_fresh(ret, sizeof(*ret)) && this_->value.moved_from == 0)
+__CPROVER_assigns(__CPROVER_object_whole(ret))
+__CPROVER_ensures(ret->payload == this_->value.payload && ret->moved_from == 0)
+__CPROVER_ensures(this_->value.payload == __CPROVER_old(this_->value.payload) && this_->value.moved_from == 0)
+;
+#endif
+#ifdef CV_HAS_spm_cget
+void spm_cget(MVT *ret, SPM *this_)
+__CPROVER_requires(cv_exc_pending == 0 && __CPROVER_is_fresh(this_, sizeof(*this_)) && __CPROVER_is_fresh(ret, sizeof(*ret)) && this_->value.moved_from == 0)
+__CPROVER_assigns(__CPROVER_object_whole(ret))
+__CPROVER_ensures(ret->payload == this_->value.payload && ret->moved_from == 0)
+__CPROVER_ensures(this_->value.payload == __CPROVER_old(this_->value.payload) && this_->value.moved_from == 0)
+;
+#endif
+#ifdef CV_HAS_spm_await_resume
+MVT *spm_await_resume(SPM *this_)
+__CPROVER_requires(cv_exc_pending == 0 && __CPROVER_is_fresh(this_, sizeof(*this_)))
+__CPROVER_assigns()
+__CPROVER_ensures(__CPROVER_return_value == &this_->value)
+;
+#endif
 #ifdef CV_HAS_spi_get
 cv_i32 spi_get(SPI *this_)
 __CPROVER_requires(cv_exc_pending == 0 && __CPROVER_is_fresh(this_, sizeof(*this_)))
